@@ -48,6 +48,9 @@ type Result struct {
 	Groups   []*Group // deferred groups started (defer-aware mode)
 	// GroupViolation[objPath] is set when a field excused by InFailedGroup really violated non-null
 	GroupViolation map[string]bool
+	// InvalidObjects[objPath]: the object at that path is invalid because one of its OWN direct
+	// (non-excused) fields violated non-null
+	InvalidObjects map[string]bool
 }
 
 // Group is a deferred group as the reference sees it (used by C13).
@@ -223,6 +226,10 @@ func (e *exec) selectionSet(sel ast.SelectionSet, objType, objID, path string) (
 			v = parsers.NewNull()
 		} else if v.IsNull() && fd.Type.NonNull {
 			invalid = true
+			if e.res.InvalidObjects == nil {
+				e.res.InvalidObjects = map[string]bool{}
+			}
+			e.res.InvalidObjects[path] = true
 		}
 		obj.Set(g.key, v)
 	}
